@@ -23,6 +23,8 @@ class DummyQueue:
     delayed: dict[datetime, list[Message]] = field(default_factory=dict)
     dead: list[Message] = field(default_factory=list)
     processing: set[Message] = field(default_factory=set)
+    # which consumer a message in `processing` was handed out by
+    holders: dict[Message, object] = field(default_factory=dict)
 
 
 def wait_until(params: ParametersT | None = None) -> datetime | None:
